@@ -64,7 +64,9 @@ CHECKS = {
         text="TLC checks Contained for every name = start (relative, absolute, root-prefixed, sibling-prefixed) + up to L components over {a, b, '.', '..', ''}; the harness "
              "walks all of them in several spellings through the real get_native_path and 14 groups of operations inside a jail; VIOLATION = native path outside the root or "
              "anything outside the root created, changed, deleted or opened.",
-        design_ref="DESIGN.md 6.12", note="The jail lives 8 directories deep inside /verif/.work so that an escaping name cannot damage anything; no symlinks."),
+        design_ref="DESIGN.md 6.12", note="The harness process chroots into a scratch directory of its own before it touches the filestore, so that every escape - relative or absolute - lands "
+                                    "in watched territory and nothing else can be reached (without the privilege: names resolving outside the scratch area are reported, not acted on); "
+                                    "the walk stops once 20 violations are recorded; no symlinks."),
     "C13": dict(
         engine="tlc-filestore", category="model_checking",
         technique="TLA+ spec Filestore.tla model-checked by TLC; its labelled state graph walked on a real NativeFileStore; end-to-end part through Cfdp.tla / Props.tla "
@@ -72,7 +74,7 @@ CHECKS = {
         text="Part 1: Filestore.tla defines status and effect of the nine requests as a function of the filesystem state; TLC checks FailureChangesNothing and FailTheRest and "
              "prints the graph of all request sequences up to a depth over {2 files, a directory with an entry, free names}; every sequence is executed on a real temp tree, "
              "status octet and whole tree compared. Part 2: tags C13:RequestsOutsideDelivery / ResponsesDiffer of the transaction monitor (requests run once, only at the "
-             "successful delivery, one response per request, same responses at both users and in the Finished PDU). Consequences of the recorded unacknowledged-mode finding are "
+             "successful delivery - never by a cancelled transaction that later becomes complete -, one response per request, same responses at both users and in the Finished PDU). Consequences of the recorded unacknowledged-mode finding are "
              "reported as KNOWN-FINDING.",
         design_ref="DESIGN.md 6.13", note="Status codes follow the code base and its own tests (Deny of a missing name = NotAllowed). Local POSIX filesystem without permission faults."),
     "C14": dict(
@@ -81,7 +83,8 @@ CHECKS = {
                   "validated by TLC (ChecksumTrace.tla)",
         text="TLC proves, for every length <= N and every chunking into reads of 1..K bytes, that the carried-remainder accumulator equals the definition Sum; the (length, "
              "position, chunk) graph it prints is walked on the real FileChecksum::checksum behind a scripted Read+Seek (every composition, pattern and seeded random content, "
-             "displaced cursors, lengths straddling 8 KiB); every distinct (content, result) pair recorded from the code is judged by TLC against Sum. Null must be 0.",
+             "displaced cursors, lengths straddling 8 KiB, and every chunking of the short files behind a reader whose j-th read FAILS - Checksum!Contract: an error or the sum of the "
+             "whole content, never the sum of a prefix); every distinct (content, result) pair recorded from the code is judged by TLC against Sum. Null must be 0.",
         design_ref="DESIGN.md 6.14", note="Trusted: TLC's evaluation of Sum (two 16-bit lanes), the scripted reader. Contents beyond the enumerated lengths are sampled (seeded)."),
     "C16": dict(
         engine="tlc-small", category="model_checking",
@@ -91,7 +94,8 @@ CHECKS = {
              "over 127.0.0.1 to a real UdpTransport and the outcome of receive() compared with the model's.",
         design_ref="DESIGN.md 6.16", note="Trusted: loopback UDP ordering; corpus of 20 datagrams; depth 2 (quick) / 3 on a sub-corpus (thorough)."),
     "C17": fam("Monitor tags C17:FaultExact (a limit fault only after `limit` transmissions spaced by at least the timeout, counts reset by progress) and "
-               "C17:HandlerAsConfigured (ignore / suspend / abandon / cancel), over timeout grids, blackouts and every handler map.", "DESIGN.md 6.17"),
+               "C17:HandlerAsConfigured (ignore / suspend / abandon / cancel), over timeout grids, blackouts and every handler map - for the limit faults and, with an adversarial peer that sends an EOF "
+               "with a foreign checksum or a wrong size, for FileChecksumFailure and FilesizeError in both modes.", "DESIGN.md 6.17"),
     "C18": fam("Monitor tags C18:OneWay / EndsOnEof / ClosureFinished / ClosureTruthful / ClosureSenderWaits / ClosureReported / IncompleteNotComplete in unacknowledged mode "
                "with closure on/off. One recorded finding (the unacknowledged receiver has no completeness test) is reported as KNOWN-FINDING.", "DESIGN.md 6.18"),
     "C19": fam("Monitor tags C19:QuietWhileSuspended / NoFaultWhileSuspended / TimersFrozen with suspend and resume at either entity at every point; completion after resume through "
@@ -108,7 +112,7 @@ CHECKS.update({
         technique="TLA+ specifications Wire.tla (header bit layout, framing, data-field length per PDU shape) and UserOps.tla (field templates of the 26 reserved user "
                   "operations and the status report) enumerated and law-checked by TLC; every shape / template instantiated on the real codec and compared with the specification",
         text="TLC enumerates the discrete shape space of every PDU kind (flags, id widths 1/2/4/8, file-size flag, CRC, TLV kinds, counts, boundary lengths) and of every user "
-             "operation (every value of every packed field), checks the layout laws (LengthsFit, HeaderRoundTrip, NibRoundTrip, OctetsOk) and prints each shape with its predicted "
+             "operation (every value of every packed field; list lengths 0-3 and, for Finished responses and NAK requests, 127-129 and 255-257 items), checks the layout laws (LengthsFit, HeaderRoundTrip, NibRoundTrip, OctetsOk) and prints each shape with its predicted "
              "lengths / header octets / field template. The harness builds a real value (or the octets of the template) per shape and demands encoded_len = |encode| = the "
              "specified length, header octets = the specified ones, decode(encode(x)) = x and encode(decode(w)) = w. Exhaustive over the discrete structure, sampled over the "
              "contents of continuous fields.",
